@@ -4,6 +4,7 @@ Property theorems only; the model is `Model/Database.lean`, the regenerated tabl
 -/
 import PrimaiteModel.Model.Database
 import PrimaiteModel.Gen.Database
+import PrimaiteModel.Gen.DatabaseTr
 import PrimaiteModel.Lemmas.DatabaseReach
 namespace Primaite.Database
 
@@ -184,83 +185,82 @@ example : (processSql (processSql ({} : Server) .delete).1 .select).2 = 404 := b
 
 /-- A successful backup stores the file's health of that moment on the backup host; an unsuccessful one stores nothing
 (in particular an existing backup is never overwritten). -/
-theorem C17_backup_stores (s : Server) (b : Backup) (p : Bool) :
-    ((backupDatabase s b p).2.2 = true →
-        b.stored = none ∧ s.canAct = true ∧ p = true ∧ b.serves = true ∧
-        (backupDatabase s b p).2.1.stored = s.file ∧ s.file.isSome) ∧
-    ((backupDatabase s b p).2.2 = false → (backupDatabase s b p).2.1 = b) := by
-  unfold backupDatabase
+theorem C17_backup_stores (s : Server) (b : Backup) (p big : Bool) :
+    ((backupDatabase s b p big).2.2 = true →
+        b.stored = none ∧ s.canAct = true ∧ p = true ∧ b.serves = true ∧ big = true ∧
+        s.backupConfigured = true ∧ s.ftpc = some .running ∧
+        (backupDatabase s b p big).2.1.stored = s.file ∧ s.file.isSome) ∧
+    ((backupDatabase s b p big).2.2 = false → (backupDatabase s b p big).2.1 = b) := by
+  unfold backupDatabase Server.ftpcAct
   by_cases hc : s.canAct = true
   · by_cases hb : s.backupConfigured = true
-    · cases hf : s.file with
+    · cases hft : s.ftpc with
       | none => simp [hc, hb]
-      | some fh =>
-        by_cases hp : (p && b.serves) = true
-        · cases hs : b.stored with
-          | none =>
-            have hp' := hp
-            simp only [Bool.and_eq_true] at hp'
-            simp [hc, hb, hp, hs, hp'.1, hp'.2]
-          | some x => simp [hc, hb, hp, hs]
-        · by_cases hq : s.ftpConn = true <;> simp [hc, hb, hp, hq]
+      | some f =>
+        cases hf : s.file with
+        | none => simp [hc, hb]
+        | some fh =>
+          by_cases hp : (f == .running && p && b.serves) = true
+          · cases hs : b.stored with
+            | none =>
+              have hp' := hp
+              simp only [Bool.and_eq_true, beq_iff_eq] at hp'
+              cases big <;> simp [hc, hb, hp, hs, hp'.1.1, hp'.1.2, hp'.2]
+            | some x => cases big <;> simp [hc, hb, hp, hs]
+          · by_cases hq : s.ftpConn = true <;> simp [hc, hb, hp, hq]
     · simp [hc, hb]
   · simp [hc]
 
-/-- `restore_good`: a successful restore, over an open answer path, with no stale file under downloads/, makes the
-database file exactly what the backup host stores and the service GOOD. -/
-theorem C17_restore_yields_backup (s : Server) (b : Backup) (pq : Bool)
-    (hd : s.downloads = none) (hok : (restoreBackup s b pq true).2 = true) :
-    (restoreBackup s b pq true).1.file = b.stored ∧ (restoreBackup s b pq true).1.health = .good := by
-  unfold restoreBackup at hok ⊢
-  by_cases hc : s.canAct = true
-  · by_cases hp : (pq && b.serves) = true
-    · cases hs : b.stored with
-      | none => simp [hc, hp, hs] at hok
-      | some bh => simp [hc, hp, hs, hd]
-    · by_cases hq : s.ftpConn = true <;> simp [hc, hp, hq] at hok
-  · simp [hc] at hok
+/-- A successful restore needs the service able to act, a configured backup server, an installed FTP client, the request
+path open, the backup host serving, a stored copy, and the backup host's link taking the file; the restored content is
+the (never overwritten) file under downloads/ if there is one, else the backup — which only arrives over an open answer
+path and a running FTP client. -/
+theorem C17_restore_result (s : Server) (b : Backup) (pq pr k : Bool) (hok : (restoreBackup s b pq pr k).2 = true) :
+    ∃ h, (restoreBackup s b pq pr k).1.file = some h ∧ (restoreBackup s b pq pr k).1.health = .good ∧
+      (s.downloads = some h ∨ (s.downloads = none ∧ pr = true ∧ s.ftpc = some .running ∧ b.stored = some h)) ∧
+      s.canAct = true ∧ s.backupConfigured = true ∧ pq = true ∧ b.serves = true ∧ k = true ∧ b.stored.isSome := by
+  unfold restoreBackup Server.ftpcAct at hok ⊢
+  cases hc : s.canAct <;> cases hbc : s.backupConfigured <;> cases hft : s.ftpc <;> simp [hc, hbc, hft] at hok ⊢
+  rename_i f
+  cases pq <;> cases hbs : b.serves <;> cases hs : b.stored <;> cases k <;> cases hq : s.ftpConn <;>
+    simp [hbs, hs, hq] at hok ⊢
+  all_goals (cases hd : s.downloads <;> cases pr <;> cases f <;> simp_all)
 
-/-- In general the restored content is the (never overwritten) file under downloads/ if there is one, else the backup. -/
-theorem C17_restore_result (s : Server) (b : Backup) (pq pr : Bool) (hok : (restoreBackup s b pq pr).2 = true) :
-    ∃ h, (restoreBackup s b pq pr).1.file = some h ∧ (restoreBackup s b pq pr).1.health = .good ∧
-      (s.downloads = some h ∨ (s.downloads = none ∧ pr = true ∧ b.stored = some h)) := by
-  unfold restoreBackup at hok ⊢
-  by_cases hc : s.canAct = true
-  · by_cases hp : (pq && b.serves) = true
-    · cases hs : b.stored with
-      | none => simp [hc, hp, hs] at hok
-      | some bh =>
-        cases hd : s.downloads with
-        | some d => exact ⟨d, by simp [hc, hp, hs, hd]⟩
-        | none =>
-          cases pr with
-          | true => exact ⟨bh, by simp [hc, hp, hs, hd]⟩
-          | false => simp [hc, hp, hs, hd] at hok
-    · by_cases hq : s.ftpConn = true <;> simp [hc, hp, hq] at hok
-  · simp [hc] at hok
+/-- `restore_good`: a successful restore with no stale file under downloads/ makes the database file exactly what the
+backup host stores and the service GOOD. -/
+theorem C17_restore_yields_backup (s : Server) (b : Backup) (pq pr k : Bool)
+    (hd : s.downloads = none) (hok : (restoreBackup s b pq pr k).2 = true) :
+    (restoreBackup s b pq pr k).1.file = b.stored ∧ (restoreBackup s b pq pr k).1.health = .good := by
+  obtain ⟨h, hf, hg, hsrc, _⟩ := C17_restore_result s b pq pr k hok
+  refine ⟨?_, hg⟩
+  rcases hsrc with hsrc | ⟨_, _, _, hsrc⟩
+  · rw [hd] at hsrc; cases hsrc
+  · rw [hf, hsrc]
 
 /-- A restore that fails — whatever the reason: service not running, request or answer path closed, backup host off,
 FTP server stopped, nothing stored — leaves the server as it was, up to the FTP client's connection bookkeeping; in
 particular the live database file is kept.  (Finding F-33: before the repair the live file was deleted when the backup
 copy did not arrive over a closed answer path.) -/
-theorem C17_failed_restore_changes_nothing (s : Server) (b : Backup) (pq pr : Bool)
-    (h : (restoreBackup s b pq pr).2 = false) :
-    (restoreBackup s b pq pr).1 = { s with ftpConn := (restoreBackup s b pq pr).1.ftpConn } := by
+theorem C17_failed_restore_changes_nothing (s : Server) (b : Backup) (pq pr k : Bool)
+    (h : (restoreBackup s b pq pr k).2 = false) :
+    (restoreBackup s b pq pr k).1 = { s with ftpConn := (restoreBackup s b pq pr k).1.ftpConn } := by
   revert h
-  cases pr <;> unfold restoreBackup <;> dsimp only <;> (repeat' split) <;> intro h <;>
+  cases pr <;> cases k <;> unfold restoreBackup <;> dsimp only <;> (repeat' split) <;> intro h <;>
     first | rfl | (cases s; simp_all) | simp_all
 
 /-- End to end: back up while GOOD, damage the data in any way the model knows, restore: GOOD again. -/
-theorem C17_restore_good (s : Server) (b : Backup) (p pq : Bool) (s' : Server)
-    (hgood : s.file = some .good) (hbk : (backupDatabase s b p).2.2 = true)
+theorem C17_restore_good (s : Server) (b : Backup) (p big pq pr k : Bool) (s' : Server)
+    (hgood : s.file = some .good) (hbk : (backupDatabase s b p big).2.2 = true)
     (hdl : s'.downloads = none ∨ s'.downloads = some .good)
-    (hok : (restoreBackup s' (backupDatabase s b p).2.1 pq true).2 = true) :
-    (restoreBackup s' (backupDatabase s b p).2.1 pq true).1.file = some .good := by
-  have hb := (C17_backup_stores s b p).1 hbk
-  have hst : (backupDatabase s b p).2.1.stored = some .good := by rw [hb.2.2.2.2.1, hgood]
-  obtain ⟨h, hf, _, hsrc⟩ := C17_restore_result s' _ pq true hok
+    (hok : (restoreBackup s' (backupDatabase s b p big).2.1 pq pr k).2 = true) :
+    (restoreBackup s' (backupDatabase s b p big).2.1 pq pr k).1.file = some .good ∧
+    (restoreBackup s' (backupDatabase s b p big).2.1 pq pr k).1.health = .good := by
+  have hb := (C17_backup_stores s b p big).1 hbk
+  have hst : (backupDatabase s b p big).2.1.stored = some .good := by rw [hb.2.2.2.2.2.2.2.1, hgood]
+  obtain ⟨h, hf, hg, hsrc, _⟩ := C17_restore_result s' _ pq pr k hok
+  refine ⟨?_, hg⟩
   rw [hf]
-  rcases hsrc with hsrc | ⟨_, _, hsrc⟩
+  rcases hsrc with hsrc | ⟨_, _, _, hsrc⟩
   · rcases hdl with hdl | hdl
     · rw [hdl] at hsrc; cases hsrc
     · rw [hdl] at hsrc; exact hsrc.symm
@@ -272,6 +272,55 @@ example :
     let dmg := (processSql r.1 .delete).1
     (restoreBackup dmg r.2.1 true true) = ({ dmg with file := some .good, downloads := some .good, ftpConn := true }, true) := by decide
 
+/-- **No backup server configured** (`backup_server_ip` None): backup and restore answer False and change nothing. -/
+theorem C17_unconfigured_backup_restore (s : Server) (h : s.backupConfigured = false) (b : Backup) (pq pr big k : Bool) :
+    backupDatabase s b pq big = (s, b, false) ∧ restoreBackup s b pq pr k = (s, false) := by
+  unfold backupDatabase restoreBackup
+  cases hc : s.canAct <;> simp [h]
+
+/-- **No FTP client on the database host** (uninstalled): backup and restore answer False and change nothing. With an
+FTP client that cannot act (stopped, paused, disabled) a backup is impossible, and a restore can only succeed from a stale
+copy already under downloads/ (RETR is sent without asking the FTP client, the answer is not stored). -/
+theorem C17_ftp_client_needed (s : Server) (b : Backup) (pq pr big k : Bool) :
+    (s.ftpc = none → backupDatabase s b pq big = (s, b, false) ∧ restoreBackup s b pq pr k = (s, false)) ∧
+    (s.ftpc ≠ some .running → (backupDatabase s b pq big).2.2 = false ∧ (backupDatabase s b pq big).2.1 = b) ∧
+    (s.ftpc ≠ some .running → (restoreBackup s b pq pr k).2 = true →
+        ∃ d, s.downloads = some d ∧ (restoreBackup s b pq pr k).1.file = some d) := by
+  refine ⟨?_, ?_, ?_⟩
+  · intro h
+    unfold backupDatabase restoreBackup
+    cases hc : s.canAct <;> cases hbc : s.backupConfigured <;> simp [h]
+  · intro h
+    have hb := C17_backup_stores s b pq big
+    cases hr : (backupDatabase s b pq big).2.2 with
+    | false => exact ⟨rfl, hb.2 hr⟩
+    | true => exact absurd (hb.1 hr).2.2.2.2.2.2.1 h
+  · intro h hok
+    obtain ⟨d, hf, _, hsrc, _⟩ := C17_restore_result s b pq pr k hok
+    rcases hsrc with hsrc | ⟨_, _, hrun, _⟩
+    · exact ⟨d, hsrc, hf⟩
+    · exact absurd hrun h
+
+/-- **Saturated link.**  When a link refuses the frame that carries the file, a backup stores nothing and answers False;
+a restore whose file is refused by the backup host's own link answers False and leaves the server as it was (up to the
+FTP client's connection bookkeeping); refused further down it behaves like a blocked answer path (`pr = false`). -/
+theorem C17_saturated_transfer (s : Server) (b : Backup) (pq pr : Bool) :
+    ((backupDatabase s b pq false).2.2 = false ∧ (backupDatabase s b pq false).2.1 = b) ∧
+    ((restoreBackup s b pq pr false).2 = false ∧
+      (restoreBackup s b pq pr false).1 = { s with ftpConn := (restoreBackup s b pq pr false).1.ftpConn }) := by
+  have hb := C17_backup_stores s b pq false
+  have h1 : (backupDatabase s b pq false).2.2 = false := by
+    cases hr : (backupDatabase s b pq false).2.2 with
+    | false => rfl
+    | true => exact absurd (hb.1 hr).2.2.2.2.1 (by decide)
+  have h2 : (restoreBackup s b pq pr false).2 = false := by
+    cases hr : (restoreBackup s b pq pr false).2 with
+    | false => rfl
+    | true =>
+      obtain ⟨_, _, _, _, _, _, _, _, hk, _⟩ := C17_restore_result s b pq pr false hr
+      exact absurd hk (by decide)
+  exact ⟨⟨h1, hb.2 h1⟩, h2, C17_failed_restore_changes_nothing s b pq pr false h2⟩
+
 /-! ## 5. Unavailability: service not running, node not ON, or path blocked -/
 
 /-- With the service not RUNNING or the node not ON, no payload is answered and the server does not change. -/
@@ -280,8 +329,8 @@ theorem C17_unavailable_receive (s : Server) (h : s.canAct = false) (src : Nat) 
   cases p <;> simp [Server.receive, h]
 
 /-- … and neither backup nor restore does anything. -/
-theorem C17_unavailable_backup_restore (s : Server) (h : s.canAct = false) (b : Backup) (pq pr : Bool) :
-    backupDatabase s b pq = (s, b, false) ∧ restoreBackup s b pq pr = (s, false) := by
+theorem C17_unavailable_backup_restore (s : Server) (h : s.canAct = false) (b : Backup) (pq pr big k : Bool) :
+    backupDatabase s b pq big = (s, b, false) ∧ restoreBackup s b pq pr k = (s, false) := by
   simp [backupDatabase, restoreBackup, h]
 
 theorem C17_canAct_iff (s : Server) : s.canAct = true ↔ s.node.st = .on ∧ s.op = .running := by
@@ -297,22 +346,36 @@ theorem C17_blocked_send (st : State) (i : Nat) (p : Payload) (h : st.reqOpen i 
 theorem C17_unavailable_send (st : State) (i : Nat) (p : Payload) (h : st.srv.canAct = false) :
     st.send i p = (st, none, none) := by
   unfold State.send
-  by_cases hr : st.reqOpen i = true
-  · simp [hr, C17_unavailable_receive st.srv h]
+  by_cases hr : (!st.reqOpen i || !st.srv.listening) = true
   · simp [hr]
+  · simp [hr, C17_unavailable_receive st.srv h]
 
 /-- Restore over a closed request path (or with the backup host off / its FTP server stopped) fails and changes
 nothing but the FTP client's bookkeeping. -/
-theorem C17_blocked_restore (s : Server) (b : Backup) (pq pr : Bool) (h : (pq && b.serves) = false) :
-    (restoreBackup s b pq pr).2 = false ∧ (restoreBackup s b pq pr).1 = s := by
+theorem C17_blocked_restore (s : Server) (b : Backup) (pq pr k : Bool) (h : (pq && b.serves) = false) :
+    (restoreBackup s b pq pr k).2 = false ∧ (restoreBackup s b pq pr k).1 = s := by
+  have h2 : (restoreBackup s b pq pr k).2 = false := by
+    cases hr : (restoreBackup s b pq pr k).2 with
+    | false => rfl
+    | true =>
+      obtain ⟨_, _, _, _, _, _, hpq, hbs, _⟩ := C17_restore_result s b pq pr k hr
+      rw [hpq, hbs] at h; cases h
+  refine ⟨h2, ?_⟩
+  have h' : ∀ x : Bool, (x && pq && b.serves) = false := by
+    intro x; cases x <;> simp_all
   unfold restoreBackup
-  by_cases hc : s.canAct = true
-  · by_cases hq : s.ftpConn = true
-    · simp [hc, h, hq]
-      cases s; simp_all
-    · simp [hc, h, hq]
-      cases s; simp_all
-  · simp [hc]
+  simp only [h, h', Bool.or_false, Bool.not_false, if_true]
+  cases hc : s.canAct <;> cases hbc : s.backupConfigured <;> cases hft : s.ftpc <;> simp
+  cases s; simp_all
+
+/-- **Not listening.**  When the database service is uninstalled, or the host's (5432, tcp) port-map entry belongs to a
+co-located database client (or was removed with it), nothing a client sends reaches the service. -/
+theorem C17_not_listening_send (st : State) (i : Nat) (p : Payload) (h : st.srv.listening = false) :
+    st.send i p = (st, none, none) := by
+  simp [State.send, h]
+
+theorem C17_listening_iff (s : Server) : s.listening = true ↔ s.installed = true ∧ s.portMine = true := by
+  simp [Server.listening]
 
 /-- A handle that was closed (or whose client is uninstalled) sends nothing: the query fails locally and the whole
 state is unchanged. -/
@@ -372,8 +435,8 @@ theorem C17_wrong_password_no_handle (st : State) (i : Nat) (c : Client) (hc : s
   by_cases hca : c.canAct = true
   · simp only [hca, Bool.not_true, Bool.false_eq_true, if_false]
     unfold State.send
-    by_cases hr : st.reqOpen i = true
-    · simp only [hr, Bool.not_true, Bool.false_eq_true, if_false, Server.receive]
+    by_cases hr : st.reqOpen i = true ∧ st.srv.listening = true
+    · simp only [hr.1, hr.2, Bool.not_true, Bool.false_eq_true, Bool.or_self, if_false, Server.receive]
       by_cases hs : st.srv.canAct = true
       · simp only [hs, Bool.not_true, Bool.false_eq_true, if_false]
         have hl := C17_connect_ladder st.srv i c.serverPw
@@ -393,7 +456,9 @@ theorem C17_wrong_password_no_handle (st : State) (i : Nat) (c : Client) (hc : s
           · simp at heq
         · simp_all
       · simp [hs]
-    · simp [hr]
+    · have : (!st.reqOpen i || !st.srv.listening) = true := by
+        cases h1 : st.reqOpen i <;> cases h2 : st.srv.listening <;> simp_all
+      simp [this]
   · simp [hca]
 
 /-! ## 7. Ties to the regenerated tables (`Gen/Database.lean`) -/
@@ -483,28 +548,16 @@ the operations permit.  The theorems below are proved for every event (hence eve
 `run st ops` for every state `st` and every list `ops`. -/
 
 /-- What a non-`recv` event leaves alone: the connection table and the id counter. -/
-theorem restore_frame (s : Server) (b : Backup) (pq pr : Bool) :
-    (restoreBackup s b pq pr).1.conns = s.conns ∧ (restoreBackup s b pq pr).1.nextId = s.nextId ∧
-    (restoreBackup s b pq pr).1.password = s.password ∧ (restoreBackup s b pq pr).1.node = s.node ∧
-    (restoreBackup s b pq pr).1.op = s.op := by
-  cases pr <;> unfold restoreBackup <;> dsimp only <;> (repeat' split) <;> first | simp | simp_all
+theorem restore_frame (s : Server) (b : Backup) (pq pr k : Bool) :
+    (restoreBackup s b pq pr k).1.conns = s.conns ∧ (restoreBackup s b pq pr k).1.nextId = s.nextId ∧
+    (restoreBackup s b pq pr k).1.password = s.password ∧ (restoreBackup s b pq pr k).1.node = s.node ∧
+    (restoreBackup s b pq pr k).1.op = s.op := by
+  cases pr <;> cases k <;> unfold restoreBackup <;> dsimp only <;> (repeat' split) <;> first | simp | simp_all
 
-theorem backup_frame (s : Server) (b : Backup) (pq : Bool) :
-    (backupDatabase s b pq).1.conns = s.conns ∧ (backupDatabase s b pq).1.nextId = s.nextId ∧
-    (backupDatabase s b pq).1.file = s.file ∧ (backupDatabase s b pq).1.password = s.password := by
-  unfold backupDatabase
-  split
-  · simp
-  · split
-    · simp
-    · split
-      · simp
-      · dsimp only
-        split
-        · simp
-        · split
-          · simp
-          · split <;> simp
+theorem backup_frame (s : Server) (b : Backup) (pq big : Bool) :
+    (backupDatabase s b pq big).1.conns = s.conns ∧ (backupDatabase s b pq big).1.nextId = s.nextId ∧
+    (backupDatabase s b pq big).1.file = s.file ∧ (backupDatabase s b pq big).1.password = s.password := by
+  cases big <;> unfold backupDatabase <;> dsimp only <;> (repeat' split) <;> first | simp | simp_all
 
 theorem request_frame (s : Server) (r : SvcReq) :
     (s.request r).1.conns = s.conns ∧ (s.request r).1.nextId = s.nextId ∧ (s.request r).1.file = s.file ∧
@@ -514,12 +567,24 @@ theorem request_frame (s : Server) (r : SvcReq) :
   · simp
   · cases r <;> dsimp only <;> (repeat' split) <;> simp
 
+theorem startUp_frame (s : Server) :
+    s.startUp.conns = s.conns ∧ s.startUp.nextId = s.nextId ∧ s.startUp.file = s.file ∧ s.startUp.password = s.password ∧
+    s.startUp.node = s.node := by
+  unfold Server.startUp; dsimp only; split <;> simp
+
+theorem shutDown_frame (s : Server) :
+    s.shutDown.conns = s.conns ∧ s.shutDown.nextId = s.nextId ∧ s.shutDown.file = s.file ∧ s.shutDown.password = s.password ∧
+    s.shutDown.node = s.node := by
+  unfold Server.shutDown; dsimp only; split <;> simp
+
 theorem tickPower_frame (s : Server) :
     s.tickPower.conns = s.conns ∧ s.tickPower.nextId = s.nextId ∧ s.tickPower.file = s.file ∧
     s.tickPower.password = s.password := by
   unfold Server.tickPower
   dsimp only
-  split <;> split <;> simp
+  split <;> split <;>
+    simp [(startUp_frame _).1, (startUp_frame _).2.1, (startUp_frame _).2.2.1, (startUp_frame _).2.2.2.1,
+          (shutDown_frame _).1, (shutDown_frame _).2.1, (shutDown_frame _).2.2.1, (shutDown_frame _).2.2.2.1]
 
 theorem tickRestart_frame (s : Server) :
     s.tickRestart.conns = s.conns ∧ s.tickRestart.nextId = s.nextId ∧ s.tickRestart.file = s.file ∧
@@ -529,36 +594,36 @@ theorem tickRestart_frame (s : Server) :
   · split <;> simp
   · simp
 
-theorem tickFix_frame (s : Server) (b : Backup) (pq pr : Bool) :
-    (s.tickFix b pq pr).conns = s.conns ∧ (s.tickFix b pq pr).nextId = s.nextId ∧
-    (s.tickFix b pq pr).password = s.password := by
+theorem tickFix_frame (s : Server) (b : Backup) (pq pr k : Bool) :
+    (s.tickFix b pq pr k).conns = s.conns ∧ (s.tickFix b pq pr k).nextId = s.nextId ∧
+    (s.tickFix b pq pr k).password = s.password := by
   unfold Server.tickFix
   split
   · split
-    · have h := restore_frame { s with health := .good, fixCd := 0 } b pq pr
+    · have h := restore_frame { s with health := .good, fixCd := 0 } b pq pr k
       exact ⟨h.1, h.2.1, h.2.2.1⟩
     · simp
   · simp
 
-theorem serverTick_frame (s : Server) (b : Backup) (t : Nat) (pq pr : Bool) :
-    (serverTick s b t pq pr).1.conns = s.conns ∧ (serverTick s b t pq pr).1.nextId = s.nextId ∧
-    (serverTick s b t pq pr).1.password = s.password := by
+theorem serverTick_frame (s : Server) (b : Backup) (t : Nat) (pq pr big k : Bool) :
+    (serverTick s b t pq pr big k).1.conns = s.conns ∧ (serverTick s b t pq pr big k).1.nextId = s.nextId ∧
+    (serverTick s b t pq pr big k).1.password = s.password := by
   unfold serverTick
   dsimp only
   have hp := tickPower_frame s
   split
   · exact ⟨hp.1, hp.2.1, hp.2.2.2⟩
   · split
-    · have hb := backup_frame s.tickPower b pq
-      have hf := tickFix_frame (backupDatabase s.tickPower b pq).1 (backupDatabase s.tickPower b pq).2.1 pq pr
-      have hr := tickRestart_frame ((backupDatabase s.tickPower b pq).1.tickFix (backupDatabase s.tickPower b pq).2.1 pq pr)
+    · have hb := backup_frame s.tickPower b pq big
+      have hf := tickFix_frame (backupDatabase s.tickPower b pq big).1 (backupDatabase s.tickPower b pq big).2.1 pq pr k
+      have hr := tickRestart_frame ((backupDatabase s.tickPower b pq big).1.tickFix (backupDatabase s.tickPower b pq big).2.1 pq pr k)
       dsimp only
       refine ⟨?_, ?_, ?_⟩
       · rw [hr.1, hf.1, hb.1, hp.1]
       · rw [hr.2.1, hf.2.1, hb.2.1, hp.2.1]
       · rw [hr.2.2.2, hf.2.2, hb.2.2.2, hp.2.2.2]
-    · have hf := tickFix_frame s.tickPower b pq pr
-      have hr := tickRestart_frame (s.tickPower.tickFix b pq pr)
+    · have hf := tickFix_frame s.tickPower b pq pr k
+      have hr := tickRestart_frame (s.tickPower.tickFix b pq pr k)
       dsimp only
       refine ⟨?_, ?_, ?_⟩
       · rw [hr.1, hf.1, hp.1]
@@ -570,14 +635,25 @@ theorem power_frame (s : Server) :
     s.powerOff.conns = s.conns ∧ s.powerOff.nextId = s.nextId ∧ s.powerOff.file = s.file := by
   unfold Server.powerOn Server.powerOff
   dsimp only
-  split <;> simp
+  split <;> split <;>
+    simp [(startUp_frame _).1, (startUp_frame _).2.1, (startUp_frame _).2.2.1,
+          (shutDown_frame _).1, (shutDown_frame _).2.1, (shutDown_frame _).2.2.1]
 
 theorem file_frame (s : Server) :
     s.fileDelete.1.conns = s.conns ∧ s.fileDelete.1.nextId = s.nextId ∧
     s.fileCorrupt.1.conns = s.conns ∧ s.fileCorrupt.1.nextId = s.nextId ∧
-    s.fileRepair.1.conns = s.conns ∧ s.fileRepair.1.nextId = s.nextId := by
-  unfold Server.fileDelete Server.fileCorrupt Server.fileRepair
-  cases s.file <;> simp
+    s.fileRepair.1.conns = s.conns ∧ s.fileRepair.1.nextId = s.nextId ∧
+    s.folderDelete.1.conns = s.conns ∧ s.folderDelete.1.nextId = s.nextId := by
+  unfold Server.fileDelete Server.fileCorrupt Server.fileRepair Server.folderDelete
+  cases s.file <;> cases s.folder <;> simp
+
+/-- Administrative changes (FTP client lifecycle / uninstall, service uninstall, backup-server configuration, a co-located
+database client) touch neither the connection table, nor the data, nor the password, nor the service's own states. -/
+theorem admin_frame (s : Server) (a : Admin) :
+    (s.admin a).1.conns = s.conns ∧ (s.admin a).1.nextId = s.nextId ∧ (s.admin a).1.file = s.file ∧
+    (s.admin a).1.password = s.password ∧ (s.admin a).1.op = s.op ∧ (s.admin a).1.health = s.health ∧
+    (s.admin a).1.node = s.node := by
+  cases a <;> unfold Server.admin <;> dsimp only <;> (repeat' split) <;> simp
 
 /-- How one event changes the connection table: only a `recv`. -/
 theorem apply_conns_nonrecv (s : Server) (e : SrvEv) (h : ∀ src p, e ≠ .recv src p) :
@@ -586,14 +662,16 @@ theorem apply_conns_nonrecv (s : Server) (e : SrvEv) (h : ∀ src p, e ≠ .recv
   | recv src p => exact absurd rfl (h src p)
   | req r => exact ⟨(request_frame s r).1, (request_frame s r).2.1⟩
   | setPw pw => exact ⟨rfl, rfl⟩
-  | backup b pq => exact ⟨(backup_frame s b pq).1, (backup_frame s b pq).2.1⟩
-  | restore b pq pr => exact ⟨(restore_frame s b pq pr).1, (restore_frame s b pq pr).2.1⟩
+  | backup b pq big => exact ⟨(backup_frame s b pq big).1, (backup_frame s b pq big).2.1⟩
+  | restore b pq pr k => exact ⟨(restore_frame s b pq pr k).1, (restore_frame s b pq pr k).2.1⟩
   | fileDelete => exact ⟨(file_frame s).1, (file_frame s).2.1⟩
   | fileCorrupt => exact ⟨(file_frame s).2.2.1, (file_frame s).2.2.2.1⟩
-  | fileRepair => exact ⟨(file_frame s).2.2.2.2.1, (file_frame s).2.2.2.2.2⟩
+  | fileRepair => exact ⟨(file_frame s).2.2.2.2.1, (file_frame s).2.2.2.2.2.1⟩
+  | folderDelete => exact ⟨(file_frame s).2.2.2.2.2.2.1, (file_frame s).2.2.2.2.2.2.2⟩
+  | admin a => exact ⟨(admin_frame s a).1, (admin_frame s a).2.1⟩
   | powerOn => exact ⟨(power_frame s).1, (power_frame s).2.1⟩
   | powerOff => exact ⟨(power_frame s).2.2.2.1, (power_frame s).2.2.2.2.1⟩
-  | tick b t pq pr => exact ⟨(serverTick_frame s b t pq pr).1, (serverTick_frame s b t pq pr).2.1⟩
+  | tick b t pq pr big k => exact ⟨(serverTick_frame s b t pq pr big k).1, (serverTick_frame s b t pq pr big k).2.1⟩
 
 /-- **Lifecycle, power, fix, backup, restore and ticks never touch the connection table**: stop/start/pause/resume/
 restart/disable/enable/fix/compromise requests, node power events, file damage, backups, restores and ticks leave the
@@ -604,20 +682,20 @@ theorem C17_table_changed_only_by_traffic (s : Server) (e : SrvEv) (h : ∀ src 
 
 /-- The tick that completes a fix makes the service GOOD and attempts the restore: afterwards the file is what a
 successful restore yields, or — when the restore fails — what it was. -/
-theorem C17_fix_completion (s : Server) (b : Backup) (pq pr : Bool) (hf : s.health = .fixing) (hc : s.fixCd ≤ 1) :
-    (s.tickFix b pq pr).health = .good ∧
-    ((restoreBackup { s with health := .good, fixCd := 0 } b pq pr).2 = false → (s.tickFix b pq pr).file = s.file) := by
+theorem C17_fix_completion (s : Server) (b : Backup) (pq pr k : Bool) (hf : s.health = .fixing) (hc : s.fixCd ≤ 1) :
+    (s.tickFix b pq pr k).health = .good ∧
+    ((restoreBackup { s with health := .good, fixCd := 0 } b pq pr k).2 = false → (s.tickFix b pq pr k).file = s.file) := by
   unfold Server.tickFix
   simp only [hf, hc, if_true]
   constructor
-  · cases hr : (restoreBackup { s with health := .good, fixCd := 0 } b pq pr).2 with
+  · cases hr : (restoreBackup { s with health := .good, fixCd := 0 } b pq pr k).2 with
     | true =>
-      obtain ⟨h, _, hg, _⟩ := C17_restore_result _ b pq pr hr
+      obtain ⟨h, _, hg, _⟩ := C17_restore_result _ b pq pr k hr
       exact hg
     | false =>
-      rw [C17_failed_restore_changes_nothing _ b pq pr hr]
+      rw [C17_failed_restore_changes_nothing _ b pq pr k hr]
   · intro hr
-    rw [C17_failed_restore_changes_nothing _ b pq pr hr]
+    rw [C17_failed_restore_changes_nothing _ b pq pr k hr]
 
 /-- `recv` of a query never touches the table; of a disconnect only shrinks it; of a connect appends at most the
 fresh id. -/
@@ -803,9 +881,10 @@ theorem C17_closed_stays_closed_run (st : State) (ops : List Op) (id : Nat)
 /-- The events that can take the file out of COMPROMISED: a restore (on demand, or by a tick that completes a fix),
 an ENCRYPT query, deletion of the file. -/
 def IsEscape : SrvEv → Prop
-  | .restore _ _ _ => True
-  | .tick _ _ _ _ => True
+  | .restore _ _ _ _ => True
+  | .tick _ _ _ _ _ _ => True
   | .fileDelete => True
+  | .folderDelete => True
   | .recv _ (.sql _ .encrypt) => True
   | _ => False
 
@@ -835,20 +914,25 @@ theorem apply_compromised_persists (s : Server) (e : SrvEv) (hne : ¬ IsEscape e
       (repeat' split) <;> exact h
   | req r => rw [show (SrvEv.req r).apply s = (s.request r).1 from rfl, (request_frame s r).2.2.1]; exact h
   | setPw pw => exact h
-  | backup b pq => rw [show (SrvEv.backup b pq).apply s = (backupDatabase s b pq).1 from rfl, (backup_frame s b pq).2.2.1]; exact h
-  | restore b pq pr => exact absurd trivial hne
+  | backup b pq big => rw [show (SrvEv.backup b pq big).apply s = (backupDatabase s b pq big).1 from rfl, (backup_frame s b pq big).2.2.1]; exact h
+  | restore b pq pr k => exact absurd trivial hne
   | fileDelete => exact absurd trivial hne
+  | folderDelete => exact absurd trivial hne
+  | admin a => rw [show (SrvEv.admin a).apply s = (s.admin a).1 from rfl, (admin_frame s a).2.2.1]; exact h
   | fileCorrupt => simp [SrvEv.apply, Server.fileCorrupt, h]
   | fileRepair => simp [SrvEv.apply, Server.fileRepair, h]
   | powerOn => rw [show SrvEv.powerOn.apply s = s.powerOn from rfl, (power_frame s).2.2.1]; exact h
   | powerOff => rw [show SrvEv.powerOff.apply s = s.powerOff from rfl, (power_frame s).2.2.2.2.2]; exact h
-  | tick b t pq pr => exact absurd trivial hne
+  | tick b t pq pr big k => exact absurd trivial hne
 
 /-- Operations that cannot produce an escaping event. -/
 def Op.keepsCompromised : Op → Bool
-  | .restore => false
-  | .tick => false
+  | .restore _ _ => false
+  | .tick _ _ _ => false
   | .fileDelete => false
+  | .folderDelete => false
+  | .dm _ .encrypt _ _ _ => false
+  | .ransomReq _ .encrypt => false
   | .rawQuery _ _ .encrypt => false
   | .hQuery _ .encrypt => false
   | .nQuery _ .encrypt => false
@@ -887,13 +971,24 @@ theorem keepsCompromised_no_escape (op : Op) (h : op.keepsCompromised = true) (e
     · exact not_escape_sql ha (by intro hq; subst hq; simp [Op.keepsCompromised] at h)
   | svc r => simp only [OpAllows] at ha; subst ha; exact id
   | setPw pw => simp only [OpAllows] at ha; subst ha; exact id
-  | backup => obtain ⟨b, pq, rfl⟩ := ha; exact id
-  | restore => simp [Op.keepsCompromised] at h
+  | backup big => obtain ⟨b, pq, g, rfl⟩ := ha; exact id
+  | restore d k => simp [Op.keepsCompromised] at h
   | fileDelete => simp [Op.keepsCompromised] at h
+  | folderDelete => simp [Op.keepsCompromised] at h
+  | admin a => simp only [OpAllows] at ha; subst ha; exact id
+  | bkDelete => exact absurd ha id
+  | dm i q sc ak via =>
+    rcases ha with ha | ha
+    · exact not_escape_connect ha
+    · exact not_escape_sql ha (by intro hq; subst hq; simp [Op.keepsCompromised] at h)
+  | ransomReq i q =>
+    rcases ha with ha | ha
+    · exact not_escape_connect ha
+    · exact not_escape_sql ha (by intro hq; subst hq; simp [Op.keepsCompromised] at h)
   | fileCorrupt => simp only [OpAllows] at ha; subst ha; exact id
   | fileRepair => simp only [OpAllows] at ha; subst ha; exact id
   | power who on => obtain ⟨_, rfl⟩ := ha; cases on <;> exact id
-  | tick => simp [Op.keepsCompromised] at h
+  | tick g d k => simp [Op.keepsCompromised] at h
   | install i => exact absurd ha id
   | appRun i => exact absurd ha id
   | appClose i => exact absurd ha id
@@ -957,21 +1052,22 @@ theorem C17_compromised_until_restored_run (st : State) (ops : List Op)
 
 /-- While the service cannot act, client traffic, backup and restore events leave the server exactly as it is. -/
 theorem apply_unavailable (s : Server) (e : SrvEv) (h : s.canAct = false)
-    (he : (∃ src p, e = .recv src p) ∨ (∃ b pq, e = .backup b pq) ∨ (∃ b pq pr, e = .restore b pq pr)) :
+    (he : (∃ src p, e = .recv src p) ∨ (∃ b pq g, e = .backup b pq g) ∨ (∃ b pq pr k, e = .restore b pq pr k)) :
     e.apply s = s := by
-  rcases he with ⟨src, p, rfl⟩ | ⟨b, pq, rfl⟩ | ⟨b, pq, pr, rfl⟩
+  rcases he with ⟨src, p, rfl⟩ | ⟨b, pq, g, rfl⟩ | ⟨b, pq, pr, k, rfl⟩
   · simp [SrvEv.apply, C17_unavailable_receive s h]
-  · simp [SrvEv.apply, (C17_unavailable_backup_restore s h b pq true).1]
-  · simp [SrvEv.apply, (C17_unavailable_backup_restore s h b pq pr).2]
+  · simp [SrvEv.apply, (C17_unavailable_backup_restore s h b pq true g true).1]
+  · simp [SrvEv.apply, (C17_unavailable_backup_restore s h b pq pr true k).2]
 
 /-- Operations by which clients (and red applications) talk to the server, plus backup and restore. -/
 def Op.isTraffic : Op → Bool
   | .connect _ | .rawQuery _ _ _ | .rawDisconnect _ _ | .hQuery _ _ | .hDisconnect _ | .nConnect _ | .nQuery _ _
-  | .nDisconnect _ | .execute _ | .uninstall _ | .ransom _ _ | .backup | .restore => true
+  | .nDisconnect _ | .execute _ | .uninstall _ | .ransom _ _ | .backup _ | .restore _ _ | .dm _ _ _ _ _
+  | .ransomReq _ _ => true
   | _ => false
 
 theorem traffic_events (op : Op) (h : op.isTraffic = true) (e : SrvEv) (ha : OpAllows op e) :
-    (∃ src p, e = .recv src p) ∨ (∃ b pq, e = .backup b pq) ∨ (∃ b pq pr, e = .restore b pq pr) := by
+    (∃ src p, e = .recv src p) ∨ (∃ b pq g, e = .backup b pq g) ∨ (∃ b pq pr k, e = .restore b pq pr k) := by
   have hc : ∀ {e}, IsConnect e → ∃ src p, e = SrvEv.recv src p := fun ⟨j, pw, h⟩ => ⟨j, _, h⟩
   have hq : ∀ {q e}, IsSql q e → ∃ src p, e = SrvEv.recv src p := fun ⟨j, cid, h⟩ => ⟨j, _, h⟩
   have hd : ∀ {e}, IsDisc e → ∃ src p, e = SrvEv.recv src p := fun ⟨j, cid, h⟩ => ⟨j, _, h⟩
@@ -993,15 +1089,26 @@ theorem traffic_events (op : Op) (h : op.isTraffic = true) (e : SrvEv) (ha : OpA
     rcases ha with ha | ha
     · exact Or.inl (hc ha)
     · exact Or.inl (hq ha)
-  | backup => exact Or.inr (Or.inl ha)
-  | restore => exact Or.inr (Or.inr ha)
+  | backup g => exact Or.inr (Or.inl ha)
+  | restore d k => exact Or.inr (Or.inr ha)
+  | dm i q sc ak via =>
+    rcases ha with ha | ha
+    · exact Or.inl (hc ha)
+    · exact Or.inl (hq ha)
+  | ransomReq i q =>
+    rcases ha with ha | ha
+    · exact Or.inl (hc ha)
+    · exact Or.inl (hq ha)
+  | folderDelete => simp [Op.isTraffic] at h
+  | admin a => simp [Op.isTraffic] at h
+  | bkDelete => simp [Op.isTraffic] at h
   | svc r => simp [Op.isTraffic] at h
   | setPw pw => simp [Op.isTraffic] at h
   | fileDelete => simp [Op.isTraffic] at h
   | fileCorrupt => simp [Op.isTraffic] at h
   | fileRepair => simp [Op.isTraffic] at h
   | power who on => simp [Op.isTraffic] at h
-  | tick => simp [Op.isTraffic] at h
+  | tick g d k => simp [Op.isTraffic] at h
   | install i => simp [Op.isTraffic] at h
   | appRun i => simp [Op.isTraffic] at h
   | appClose i => simp [Op.isTraffic] at h
@@ -1021,14 +1128,16 @@ theorem C17_unavailable_run (st : State) (ops : List Op) (hops : ∀ op ∈ ops,
 
 /-- … and in such a state (or with the request path closed) a connect yields no handle and a query fails, leaving the
 *whole* state unchanged. -/
-theorem C17_unavailable_connect_query (st : State) (i : Nat) (h : st.srv.canAct = false ∨ st.reqOpen i = false) :
+theorem C17_unavailable_connect_query (st : State) (i : Nat)
+    (h : st.srv.canAct = false ∨ st.reqOpen i = false ∨ st.srv.listening = false) :
     (st.getNewConnection i).2.2 = none ∧ (st.getNewConnection i).1 = st ∧
     ∀ cid q, (st.rawQuery i cid q).2.2 = false ∧ (st.rawQuery i cid q).1 = st := by
   have hs : ∀ p, st.send i p = (st, none, none) := by
     intro p
-    rcases h with h | h
+    rcases h with h | h | h
     · exact C17_unavailable_send st i p h
     · exact C17_blocked_send st i p h
+    · exact C17_not_listening_send st i p h
   refine ⟨?_, ?_, ?_⟩
   · unfold State.getNewConnection
     split
@@ -1045,8 +1154,102 @@ theorem C17_unavailable_connect_query (st : State) (i : Nat) (h : st.srv.canAct 
   · intro cid q
     simp [State.rawQuery, hs]
 
+/-! ## 9. The translated source equals the model (`Gen/DatabaseTr.lean`, harness/extract/database_tr.py)
+
+`_process_sql`, `_process_connect` and `IOSoftware.add_connection` are translated statement by statement from the source on
+every run; the theorems below prove the translated functions equal to the hand-written model for every server state and
+every argument.  A changed guard, operator, status code, branch order or written value in the source changes the generated
+definition and these proofs stop checking. -/
+
+set_option linter.unusedSimpArgs false in
+/-- `_process_sql` as translated = the model's `processSql`, and an answer carries the query's uuid (which is what the
+client counts as success) exactly when its status is 200. -/
+theorem C17_tr_process_sql (s : Server) (q : Sql) :
+    ((Gen.DatabaseTr.processSql s q).1, (Gen.DatabaseTr.processSql s q).2.1) = processSql s q ∧
+    (Gen.DatabaseTr.processSql s q).2.2 = ((Gen.DatabaseTr.processSql s q).2.1 == 200) := by
+  unfold Gen.DatabaseTr.processSql processSql
+  cases hf : s.file with
+  | none => simp
+  | some fh =>
+    by_cases hh : s.health = .good
+    · cases q <;> cases fh <;> simp [hh]
+    · simp [hh]
+
+set_option linter.unusedSimpArgs false in
+/-- `_process_connect` (with `add_connection` inlined) as translated = the model's `processConnect`, for every server
+state in which the id about to be issued is not in the table (uuid4 freshness; `C17_tr_fresh_of_wf`); the id is visible
+to the client only when `response` is true, and `response` is `status_code == 200`. -/
+theorem C17_tr_process_connect (s : Server) (owner : Nat) (pw : Option Nat) (hfresh : s.hasConn s.nextId = false) :
+    ((Gen.DatabaseTr.processConnect s owner pw).1, (Gen.DatabaseTr.processConnect s owner pw).2.1,
+      if (Gen.DatabaseTr.processConnect s owner pw).2.2.1 then (Gen.DatabaseTr.processConnect s owner pw).2.2.2 else none)
+      = processConnect s owner pw ∧
+    (Gen.DatabaseTr.processConnect s owner pw).2.2.1 = ((Gen.DatabaseTr.processConnect s owner pw).2.1 == 200) := by
+  unfold Gen.DatabaseTr.processConnect Gen.DatabaseTr.addConnection processConnect healthAcceptsConnect
+  have hfresh' : Server.hasConn { s with nextId := s.nextId + 1 } s.nextId = false := hfresh
+  by_cases h1 : s.op = .running
+  · by_cases h3 : s.password = pw
+    · by_cases h4 : s.maxSessions ≤ s.conns.length
+      · cases hh : s.health <;> simp [h1, h3, h4, hh]
+      · cases hh : s.health <;> simp [h1, h3, h4, hh, hfresh', Server.hasConn] <;> simp_all [Server.hasConn]
+    · cases hh : s.health <;> simp [h1, h3, hh]
+  · simp [h1]
+
+/-- The freshness hypothesis holds in every well-formed state, hence (`C17_table_wellformed_run`) along every run. -/
+theorem C17_tr_fresh_of_wf (s : Server) (h : s.WF) : s.hasConn s.nextId = false := by
+  cases hh : s.hasConn s.nextId with
+  | false => rfl
+  | true =>
+    have : ∃ c ∈ s.conns, c.id = s.nextId := by simpa [Server.hasConn, List.any_eq_true] using hh
+    obtain ⟨c, hcm, hid⟩ := this
+    exact absurd (h.1 c hcm) (by omega)
+
+/-! ## 10. Deepening: shut-down duration 0, the data-manipulation bot -/
+
+/-- With shut-down duration 0 a power-off takes the database host straight to OFF and stops the service at once: from
+that moment the service cannot act (so `C17_unavailable_*` apply); table and data are untouched. -/
+theorem C17_power_off_immediate (s : Server) (h : s.node.downDur = 0) :
+    s.powerOff.node.st = .off ∧ s.powerOff.canAct = false ∧ s.powerOff.conns = s.conns ∧ s.powerOff.file = s.file := by
+  unfold Server.powerOff Node.powerOff Server.shutDown Server.canAct Node.isOn
+  simp only [h, if_true]
+  by_cases hi : s.installed = true <;> simp [hi]
+
+/-- The bot reaches stage PORT_SCAN only from PORT_SCAN, or from NOT_STARTED / LOGON with a successful port-scan trial. -/
+theorem C17_dm_stage (stage : Nat) (scan : Bool) :
+    (dmAdvance stage scan = 2 ↔ (stage = 2 ∨ ((stage = 0 ∨ stage = 1) ∧ scan = true))) := by
+  unfold dmAdvance
+  by_cases h0 : stage = 0
+  · subst h0; cases scan <;> simp
+  · by_cases h1 : stage = 1
+    · subst h1; cases scan <;> simp
+    · cases scan <;> simp [h0, h1]
+
+/-- **Kill chain gating.**  `DataManipulationBot.attack()` sends nothing to the database unless the stage machine is in
+PORT_SCAN after this call's logon / port-scan steps AND the data-manipulation trial succeeds; otherwise the server is
+unchanged.  (When it does send, it is one `get_new_connection` and one `handle.query`: `dmAttack_reach`, so every
+sequence theorem above covers the bot.) -/
+theorem C17_dm_gated (st : State) (i : Nat) (q : Sql) (scan atk : Bool) (c : Client) (hc : st.client? i = some c)
+    (h : ¬ (dmAdvance c.dmStage scan = 2 ∧ atk = true)) : (st.dmAttack i q scan atk).1.srv = st.srv := by
+  unfold State.dmAttack
+  simp only [hc]
+  split
+  · rfl
+  · split
+    · rfl
+    · split
+      · rfl
+      · simp [h]
+
+example : (run ({ clients := [{ dmInstalled := true, dmApp := .running }] } : State)
+    [.dm 0 .delete true true false]).srv.file = some .compromised := by decide
+example : (run ({ clients := [{ dmInstalled := true, dmApp := .running }] } : State)
+    [.dm 0 .delete false true false, .dm 0 .delete true false false]).srv.file = some .good := by decide
+example : (run ({ srv := { node := { downDur := 0 } }, clients := [{}] } : State) [.power 0 false, .connect 0]).srv.conns = [] := by decide
+example : (run ({ srv := { backupConfigured := false } } : State) [.backup true, .restore true true]).bk.stored = none := by decide
+example : (run ({ clients := [{}] } : State) [.admin .coInstall, .connect 0]).srv.conns = [] := by decide
+example : (run ({ clients := [{}] } : State) [.backup true, .rawQuery 0 none .select, .admin (.ftpc .stop), .restore true true]).srv.downloads = none := by decide
+
 example : ({ srv := { op := .stopped }, clients := [{}] } : State).srv.canAct = false := by decide
-example : (run ({ srv := { op := .stopped }, clients := [{}] } : State) [.connect 0, .rawQuery 0 (some 0) .delete, .restore]).srv
+example : (run ({ srv := { op := .stopped }, clients := [{}] } : State) [.connect 0, .rawQuery 0 (some 0) .delete, .restore true true]).srv
     = ({ op := .stopped } : Server) := by decide
 
 end Primaite.Database
